@@ -470,10 +470,61 @@ def class_state_untouched_case(case):
     return dict(reproduced=bool(violated), violated=violated[:4])
 
 
+def remove_trait_case(case):
+    """C13: after remove_trait(name) the instance trait AND the value stored under it are gone -- the name is governed by the
+    class-level rule again (declared trait, wildcard, or a wildcard resolution cached in the class), whatever that rule is."""
+    from traits.api import HasTraits, HasStrictTraits, Int, Str, Event, Constant, ReadOnly, TraitError, Map, List
+    violated = []
+
+    class Strict(HasStrictTraits):
+        fired = Event
+        limit = Constant(10)
+        ident = ReadOnly
+        plain = Int(4)
+
+    class Loose(HasTraits):
+        plain = Int(4)
+        _ = Str("wild")
+    for cls in (Strict, Loose):
+        for name in ("fired", "limit", "ident", "plain", "extra", "other_thing"):
+            if name in ("fired", "limit", "ident") and cls is Loose:
+                continue
+            for probe_first in (False, True):
+                for shadow in (Int, Map({"a": 1, "b": 2}), List(Int)):
+                    o, ref = cls(), cls()
+                    if probe_first:
+                        hasattr(o, name)              # resolves (and caches) the class-level rule before the trait is added
+                    o.add_trait(name, shadow)
+                    value = {Int: 70}.get(shadow, "b" if isinstance(shadow, Map) else [1, 2])
+                    try:
+                        setattr(o, name, value)
+                    except Exception as e:
+                        violated.append("%s.%s: the instance trait did not govern the write: %r" % (cls.__name__, name, e))
+                        continue
+                    if o.remove_trait(name) is not True:
+                        violated.append("%s.%s: remove_trait did not return True" % (cls.__name__, name))
+                    w = "%s.%s (%s, %s)" % (cls.__name__, name, type(shadow).__name__ if not isinstance(shadow, type) else shadow.__name__, "probed first" if probe_first else "not probed")
+                    if name in o.__dict__:
+                        violated.append("%s: the value stored under the removed instance trait is still in the object's dictionary (%r)" % (w, o.__dict__[name]))
+                    if name in o._instance_traits():
+                        violated.append("%s: the instance trait is still installed" % w)
+
+                    def read(x):
+                        try:
+                            return ("value", getattr(x, name))
+                        except AttributeError:
+                            return ("AttributeError",)
+                        except Exception as e:
+                            return ("raises", type(e).__name__)
+                    if read(o) != read(ref):
+                        violated.append("%s: reads %r afterwards, an untouched instance reads %r" % (w, read(o), read(ref)))
+    return dict(reproduced=bool(violated), violated=violated[:8])
+
+
 def main():
     case = json.loads(sys.stdin.read())
     out = {"get_trait": get_trait_case, "clone": clone_case, "prefix_trait_unhashable": prefix_trait_unhashable_case,
-           "prefix_cache_inherited": prefix_cache_inherited_case, "copy_traits": copy_traits_case, "default_isolation": default_isolation_case, "subclass_cached_getter": subclass_cached_getter_case, "prefix_order": prefix_order_case, "class_state_untouched": class_state_untouched_case}[case["family"]](case)
+           "prefix_cache_inherited": prefix_cache_inherited_case, "copy_traits": copy_traits_case, "default_isolation": default_isolation_case, "subclass_cached_getter": subclass_cached_getter_case, "prefix_order": prefix_order_case, "class_state_untouched": class_state_untouched_case, "remove_trait": remove_trait_case}[case["family"]](case)
     print(json.dumps(out, default=repr))
 
 
